@@ -24,9 +24,11 @@ enum Code {
     FREENEW,
     BULK,        // a0 = number of fresh keys to put (forces growth)
     PUTNULL,     // NULL key / NULL value: must be refused
+    RUN,         // a0 = where the run starts (0: slot 0, 1: 30 slots before the table end (wraps), 2: slot 97), a1 = length relative to half the table (n = size/2 - 3 + a1):
+                 //      puts one key per consecutive home slot, so that one contiguous probe run longer than half the table exists (key class 7 then names keys of this run)
     NCODES
 };
-static const char *code_names[] = {"put", "get", "contains", "remove", "len", "iterate", "itr", "clear", "freenew", "bulk", "putnull"};
+static const char *code_names[] = {"put", "get", "contains", "remove", "len", "iterate", "itr", "clear", "freenew", "bulk", "putnull", "run"};
 
 struct Case {
     int flags = 0; // bit0 KEY_DUP, bit1 KEY_AUTOFREE, bit2 VAL_ALLOW_UPDATE
@@ -87,6 +89,22 @@ static const std::vector<std::string> &steered_pool(m_map_t *m, size_t tsize, in
     return pool_cache[key] = v;
 }
 
+// one key per home slot of a table of the given size (only built for small tables)
+static std::map<size_t, std::vector<std::string>> home_keys_cache;
+static const std::vector<std::string> &home_keys(m_map_t *m, size_t tsize) {
+    auto it = home_keys_cache.find(tsize);
+    if (it != home_keys_cache.end()) return it->second;
+    std::vector<std::string> v(tsize); size_t have = 0;
+    for (long n = 0; have < tsize && n < 400000; n++) {
+        char b[48]; snprintf(b, sizeof b, "r%ld", n);
+        size_t home = 0, ts = 0;
+        m_map_verif_slot(m, b, &home, nullptr, &ts);
+        if (ts != tsize) break;
+        if (home < tsize && v[home].empty()) { v[home] = b; have++; }
+    }
+    return home_keys_cache[tsize] = v;
+}
+
 struct Runner {
     const Case &c;
     rt::Verdict v;
@@ -103,6 +121,7 @@ struct Runner {
     bool nt = false; int growths = 0; size_t last_tsize = 0;
     std::set<std::string> cls;
     long bulk_serial = 0;
+    std::vector<std::string> run_keys; // keys of the last RUN op, in slot order
 
     Runner(const Case &cc) : c(cc), exp_min(ARENA + 1, 0), exp_max(ARENA + 1, 0) {
         dup = c.flags & 1; autofree = (c.flags & 2) || dup; update = c.flags & 4;
@@ -121,6 +140,12 @@ struct Runner {
             if (n == 42) return std::string("\xc3\xa9\xff\x80key");
             if (n == 43) return std::string(299, 'L') + "M";
             return "k" + std::to_string(n);
+        }
+        if (kc == 7) {
+            if (run_keys.empty()) return "norun" + std::to_string(ki % 3);
+            const size_t n = run_keys.size(); const long j = ki % 12;
+            const size_t pos = j < 4 ? (size_t)j : j < 8 ? n / 2 - 2 + (size_t)(j - 4) : n - 1 - (size_t)(j - 8);
+            return run_keys[pos % n];
         }
         int cl = (int)((kc - 1) % 6) + 1;
         auto &p = steered_pool(m, tsize(), cl);
@@ -307,6 +332,26 @@ struct Runner {
                 track_growth();
                 check_state("bulk put");
                 break; }
+            case RUN: {
+                const size_t ts = tsize();
+                if (ts > 1024) break;
+                const auto &hk = home_keys(m, ts);
+                const size_t start = op.arg(0) % 3 == 0 ? 0 : op.arg(0) % 3 == 1 ? ts - 30 : 97 % ts;
+                const size_t n = ts / 2 - 3 + (size_t)(op.arg(1) % 30);
+                if (model.size() + n + 1 > ts - ts / 4) break; // would grow the table half way through: the run would not be one
+                run_keys.clear();
+                for (size_t j = 0; j < n && v.ok; j++) {
+                    const std::string &k = hk[(start + j) % ts];
+                    if (k.empty() || model.count(k)) continue;
+                    int valid = fresh(); bool took;
+                    int r = put_key(k, valid, took, true);
+                    if (r != 0) { fail("RET", "put of a new key (run) returned " + std::to_string(r)); break; }
+                    model[k] = valid; run_keys.push_back(k);
+                }
+                track_growth();
+                if (run_keys.size() > ts / 2) { cls.insert("run-longer-than-half-the-table"); nt = true; }
+                check_state("run put");
+                break; }
             default: break;
             }
         }
@@ -432,7 +477,7 @@ static rc::Gen<Op> gen_op() {
     using namespace rc;
     auto mk = [](int code, std::vector<long> a = {}) { Op o; o.code = code; o.a = a; return o; };
     // key references: steered classes are drawn more often than plain keys; few distinct indices so keys repeat
-    auto keyref = gen::pair(gens::weighted_values<long>({{3, 0}, {5, 1}, {3, 2}, {2, 3}, {3, 4}, {2, 5}, {1, 6}}), gens::range<long>(0, 10));
+    auto keyref = gen::pair(gens::weighted_values<long>({{3, 0}, {5, 1}, {3, 2}, {2, 3}, {3, 4}, {2, 5}, {1, 6}, {3, 7}}), gens::range<long>(0, 12));
     auto keyop = [=](int code) { return gen::map(keyref, [=](std::pair<long, long> k) { return mk(code, {k.first, k.second}); }); };
     std::vector<std::pair<size_t, Gen<Op>>> w;
     w.push_back({40, gen::map(gen::pair(keyref, gens::weighted_values<long>({{4, 0}, {1, 1}})), [=](std::pair<std::pair<long, long>, long> p) { return mk(PUT, {p.first.first, p.first.second, p.second}); })});
@@ -447,6 +492,7 @@ static rc::Gen<Op> gen_op() {
     w.push_back({1, gen::just(mk(FREENEW))});
     w.push_back({1, gen::just(mk(PUTNULL))});
     w.push_back({1, gen::map(gens::weighted_values<long>({{3, 20}, {3, 200}, {1, 420}, {1, 900}}), [=](long n) { return mk(BULK, {n}); })});
+    w.push_back({2, gen::map(gen::pair(gens::range<long>(0, 3), gens::range<long>(0, 30)), [=](std::pair<long, long> p) { return mk(RUN, {p.first, p.second}); })});
     return gens::weighted<Op>(w);
 }
 
@@ -482,8 +528,9 @@ extern "C" int LLVMFuzzerTestOneInput(const uint8_t *data, size_t size) {
     while (fdp.remaining_bytes() > 0 && c.ops.size() < 80) {
         Op o; o.code = fdp.ConsumeIntegralInRange<int>(0, NCODES - 1);
         switch (o.code) {
-        case PUT: o.a = {fdp.ConsumeIntegralInRange<long>(0, 6), fdp.ConsumeIntegralInRange<long>(0, 12), fdp.ConsumeIntegralInRange<long>(0, 1)}; break;
-        case GET: case CONTAINS: case REMOVE: o.a = {fdp.ConsumeIntegralInRange<long>(0, 6), fdp.ConsumeIntegralInRange<long>(0, 12)}; break;
+        case RUN: o.a = {fdp.ConsumeIntegralInRange<long>(0, 2), fdp.ConsumeIntegralInRange<long>(0, 29)}; break;
+        case PUT: o.a = {fdp.ConsumeIntegralInRange<long>(0, 7), fdp.ConsumeIntegralInRange<long>(0, 12), fdp.ConsumeIntegralInRange<long>(0, 1)}; break;
+        case GET: case CONTAINS: case REMOVE: o.a = {fdp.ConsumeIntegralInRange<long>(0, 7), fdp.ConsumeIntegralInRange<long>(0, 12)}; break;
         case ITERATE: case ITR: { int n = fdp.ConsumeIntegralInRange<int>(0, 12); for (int i = 0; i < n; i++) o.a.push_back(fdp.ConsumeIntegralInRange<long>(0, o.code == ITERATE ? 3 : 2)); break; }
         case BULK: o.a = {fdp.ConsumeIntegralInRange<long>(0, 500)}; break;
         default: break;
